@@ -352,7 +352,7 @@ func (d *Decls) fieldHeap(structT types.Type, i int) (name, sort string) {
 
 func (d *Decls) elemHeap(elem types.Type) (name, sort string) {
 	es := d.sortOf(elem)
-	name = "E." + shortTypeName(elem)
+	name = "E." + canonTypeName(elem)
 	sort = "(Array Int (Array Int " + es + "))"
 	return
 }
@@ -367,7 +367,7 @@ func (d *Decls) cellHeap(t types.Type) (name, sort string) {
 func (d *Decls) mapHeaps(m *types.Map) (dom, val, ln string, ks, vs string) {
 	ks = d.sortOf(m.Key())
 	vs = d.sortOf(m.Elem())
-	tag := shortTypeName(m.Key()) + "." + shortTypeName(m.Elem())
+	tag := canonTypeName(m.Key()) + "." + canonTypeName(m.Elem())
 	return "MD." + tag, "MV." + tag, "ML." + tag, ks, vs
 }
 
@@ -393,4 +393,13 @@ func (d *Decls) typeTag(t types.Type) int {
 	v := len(d.tags) + 1
 	d.tags[k] = v
 	return v
+}
+
+// canonTypeName: type name used in heap names; byte/uint8 and rune/int32 are the same type.
+func canonTypeName(t types.Type) string {
+	t = types.Unalias(t)
+	if b, ok := t.(*types.Basic); ok {
+		return types.Typ[b.Kind()].Name()
+	}
+	return shortTypeName(t)
 }
